@@ -52,7 +52,7 @@ def make_classes_job(ctx, proto, workers, seed):
     data = job["data"] + extra
     ctx.rng.shuffle(data)
     job["data"] = data
-    job["retire"] = 1 if workers > 1 else 0      # dynamic workers: one worker is told to quit during the data phase
+    job["retire"] = workers - 1                  # dynamic workers: all but one worker are told to quit during the data phase
     return job
 
 
@@ -76,8 +76,8 @@ def check(ctx):
     drv = ctx.go_build_test("vflow", ["vflow/pipeline_verif_test.go"])
     jobs = []
     for proto in c12.PROTOS:
-        for k in range(6 if thorough else 2):
-            jobs.append(make_classes_job(ctx, proto, [2, 3, 1, 4][k % 4], ctx.seed * 1000 + 500 + k))
+        for k in range(8 if thorough else 4):
+            jobs.append(make_classes_job(ctx, proto, [2, 3, 4, 4, 1, 3, 4, 2][k % 8], ctx.seed * 1000 + 500 + k))
     for i, j in enumerate(jobs):
         j["id"] = i
     with concurrent.futures.ThreadPoolExecutor(max_workers=8) as ex:
